@@ -241,7 +241,7 @@ Lemma num_ok_var e pre sg b1 nm b2 : num_ok e (NVar pre sg b1 nm b2) = true ->
   vname_ok nm = true /\ exists v, var_value e (vname_key nm) = VNum v.
 Proof.
   cbn [num_ok]. intros H. apply andb_true_iff in H as [H1 H2]. split; [exact H1|].
-  destruct (var_value e (vname_key nm)) as [v|s]; [exists v; reflexivity|discriminate].
+  destruct (var_value e (vname_key nm)) as [v|s|d c]; [exists v; reflexivity|discriminate|discriminate].
 Qed.
 
 (* the magnitude part of a written number *)
@@ -253,7 +253,7 @@ Definition mag_bytes (n : numc) : list Z :=
 Definition mag_value (e : env) (n : numc) : Z :=
   match n with
   | NLit _ _ ds => dec_value ds
-  | NVar _ _ _ nm _ => match var_value e (vname_key nm) with VNum v => v | VStr _ => 0 end
+  | NVar _ _ _ nm _ => match var_value e (vname_key nm) with VNum v => v | _ => 0 end
   end.
 Definition num_pre (n : numc) : nat := match n with NLit pre _ _ => pre | NVar pre _ _ _ _ => pre end.
 
@@ -440,6 +440,21 @@ Proof.
   rewrite Hp3. cbn [with_number]. rewrite (loop_skip sub e f rest r3 Hs3). reflexivity.
 Qed.
 
+Lemma loop_P sub e f pre low x bc y rest :
+  num_ok e x = true -> num_ok e y = true -> in_range draw_range_fill (num_value e x) = true -> starts rest ->
+  loop sub e (S f) ((letter pre low 80 ++ num_bytes x ++ blanks bc ++ [44] ++ num_bytes y) ++ rest)
+  = Paint (num_value e x) (num_value e y) :: loop sub e f rest.
+Proof.
+  intros Hx Hy Hr Hst. rewrite <- !app_assoc. rewrite loop_letter by lia.
+  unfold dispatch. cbn [Z.eqb Pos.eqb].
+  destruct (parse_number_num e None x (blanks bc ++ [44] ++ num_bytes y ++ rest) Hx (comma_after e x bc y rest))
+    as (r1 & Hp1 & Hs1).
+  rewrite Hp1. cbn [with_number]. rewrite Hr, Hs1, skip_blank_blanks. cbn [app].
+  rewrite skip_blank_nb by reflexivity. cbn [Z.eqb Pos.eqb].
+  destruct (parse_number_num e None y rest Hy (num_rest_starts y rest Hst)) as (r3 & Hp3 & Hs3).
+  rewrite Hp3. cbn [with_number]. rewrite (loop_skip sub e f rest r3 Hs3). reflexivity.
+Qed.
+
 Theorem loop_ccmd sub e c f rest : ccmd_ok sub e c -> starts rest ->
   loop sub e (cost c + f) (ccmd_bytes c ++ rest) = ccmd_abs e c ++ loop sub e f rest.
 Proof.
@@ -490,6 +505,8 @@ Proof.
       rewrite Ha.
        rewrite parse_nos_semi. cbn [with_number].
       rewrite loop_semi0. reflexivity.
+  - (* P *)
+    destruct Hok as (Hx & Hy & Hr). rewrite loop_P by assumption. reflexivity.
   - (* X *)
     destruct Hok as (Hn & str & Hv & Hsub).
     rewrite <- !app_assoc, loop_letter by lia. unfold dispatch. cbn [Z.eqb Pos.eqb app].
@@ -528,7 +545,7 @@ Proof.
 Qed.
 
 Definition sub_of (depth : nat) (e : env) : list Z -> list cmd :=
-  match depth with O => fun _ => [Unsupported] | S d => parse d e end.
+  match depth with O => fun _ => [Fail draw_OUT_OF_MEMORY] | S d => parse d e end.
 
 Lemma parse_unfold depth e s : parse depth e s = loop (sub_of depth e) e (S (length s)) s.
 Proof. destruct depth; reflexivity. Qed.
@@ -603,6 +620,7 @@ Proof. unfold signed, lit_num. cbn [num_sign]. destruct (z <? 0), plus; reflexiv
 Definition m_in_range (c : cmd) : bool :=
   match c with
   | MRel x _ | MAbs x _ => in_range draw_range_x x
+  | Paint f _ => in_range draw_range_fill f
   | _ => true
   end.
 
